@@ -165,7 +165,7 @@ impl Outgoing {
     // Returns (unsolicited, outoforder) flags
     // Return: Out of order or unsolicited acks
     pub fn register_ack(&mut self, pkid: u16) -> Option<()> {
-        let (head, _filter_idx, _cursor) = self.inflight_buffer.pop_front()?;
+        let (head, _filter_idx, _cursor) = *self.inflight_buffer.front()?;
 
         // We don't support out of order acks
         if pkid != head {
@@ -173,6 +173,8 @@ impl Outgoing {
             return None;
         }
 
+        // only a matching ack releases the oldest inflight publish
+        self.inflight_buffer.pop_front();
         Some(())
     }
 
@@ -187,7 +189,7 @@ impl Outgoing {
     // But we don't support out of order / unsolicited pubcomps
     // to be consistent with the behaviour with other acks
     pub fn register_pubcomp(&mut self, pkid: u16) -> Option<()> {
-        let id = self.unacked_pubrels.pop_front()?;
+        let id = *self.unacked_pubrels.front()?;
 
         // out of order acks
         if pkid != id {
@@ -195,6 +197,7 @@ impl Outgoing {
             return None;
         }
 
+        self.unacked_pubrels.pop_front();
         Some(())
     }
 
